@@ -374,6 +374,14 @@ fn gen_c11(run_seed: u64, tier: Tier) -> (Scenario, &'static str) {
     p.ttls = vec![1, 2, 5, 60];
     p.batch_pct = 30;
     p.whole_seconds = false;
+    // one run in sixteen: frames whose lengths do not fit 16 bits (values of 64 KiB and more)
+    if prng.chance(1, 16) {
+        knobs.item_limit = 1024 * 1024;
+        p.max_value = *prng.pick(&[70_000usize, 140_000, 300_000]);
+        p.big_value_pct = 40;
+        p.numeric_pct = 10;
+        p.cmds = p.cmds.min(24);
+    }
     let ring_n = prng.chance(1, 3);
     let mut wrng = Rng::sub(run_seed, "workload");
     let limit = knobs.item_limit;
